@@ -374,6 +374,7 @@ impl Xot {
     /// ```
     pub fn insert_after(&mut self, reference_node: Node, new_sibling: Node) -> Result<(), Error> {
         self.add_structure_check(self.parent(reference_node), new_sibling)?;
+        self.sibling_reference_check(reference_node)?;
         self.remove_consolidate_text_nodes(
             self.previous_sibling(new_sibling),
             self.next_sibling(new_sibling),
@@ -394,6 +395,7 @@ impl Xot {
     /// Insert a new sibling before a reference node.
     pub fn insert_before(&mut self, reference_node: Node, new_sibling: Node) -> Result<(), Error> {
         self.add_structure_check(self.parent(reference_node), new_sibling)?;
+        self.sibling_reference_check(reference_node)?;
         self.remove_consolidate_text_nodes(
             self.previous_sibling(new_sibling),
             self.next_sibling(new_sibling),
@@ -877,6 +879,17 @@ impl Xot {
     /// off this behavior so text nodes are never merged by calling this.
     pub fn set_text_consolidation(&mut self, consolidate: bool) {
         self.text_consolidation = consolidate;
+    }
+
+    // a normal node cannot become the sibling of an attribute or namespace
+    // node: it would end up in between them.
+    fn sibling_reference_check(&self, reference_node: Node) -> Result<(), Error> {
+        if !self.value(reference_node).is_normal() {
+            return Err(Error::InvalidOperation(
+                "Cannot insert a sibling next to an attribute or namespace node".into(),
+            ));
+        }
+        Ok(())
     }
 
     fn add_structure_check(&self, parent: Option<Node>, child: Node) -> Result<(), Error> {
